@@ -32,6 +32,17 @@ MAX_DEPTH = 3
 import json as _json
 from pathlib import Path as _Path
 KNOWN = set(_json.loads((_Path(__file__).parent / 'known_helpers.json').read_text()))
+# a known helper that changed its home inside the module (method <-> module-level function, other class) is still known
+KNOWN_NAMES = {n.rsplit('.', 1)[-1] for n in KNOWN}
+
+
+def _known(g):
+    if g.fq in KNOWN:
+        return True
+    if g.name in KNOWN_NAMES:
+        mod = g.module.name
+        return any(k.startswith(mod + '.') and k.rsplit('.', 1)[-1] == g.name for k in KNOWN)
+    return False
 
 
 def _is_docstring(s):
@@ -187,7 +198,7 @@ class Inliner:
             recv = fn.value
         else:
             return None
-        if not name.startswith('_') or name.startswith('__') or g.fq in KNOWN:
+        if not name.startswith('_') or name.startswith('__') or _known(g):
             return None
         node = g.node
         if not isinstance(node, ast.FunctionDef):
